@@ -63,6 +63,7 @@ def pair_fn(gen, module):
 
 def ok_buffers(rnd, I, s, maxlen, want=6, tries=120):
     out = []
+    pins = C1.discriminant_pins(s)
     for _ in range(tries):
         n = maxlen + rnd.choice([0, 0, 1, 2])
         k = rnd.random()
@@ -72,6 +73,11 @@ def ok_buffers(rnd, I, s, maxlen, want=6, tries=120):
             b = bytes(rnd.choice([0, 0, 0, 1, 2, 3]) for _ in range(n))
         else:
             b = bytes([rnd.choice([0, 1, 0x11, 0x22])] * n)
+        if pins and rnd.random() < 0.5:
+            # make a `tag == constant` condition true so that the guarded fields are present
+            off, c = rnd.choice(pins)
+            if off < n:
+                b = b[:off] + bytes([c]) + b[off + 1 :]
         v = RI.StructView(I, s, {}, b)
         if v.ok():
             out.append(b)
